@@ -1,5 +1,7 @@
 #include "vrt.hpp"
 
+#include <sys/mman.h>
+
 #include <yaclib/fault/config.hpp>
 #include <yaclib/fault/detail/fiber/scheduler.hpp>
 #include <yaclib/fault/verif.hpp>
@@ -1303,8 +1305,38 @@ int main(int argc, char** argv) {
 
 namespace {
 
+// "no reuse" heap (command repro): every block gets an address no other block ever had in this process, so that the
+// outcome of a pointer comparison in the program (the benign ABA of a lock-free push) cannot depend on what the
+// process allocated and freed before the program began
+char* g_arena_lo = nullptr;
+char* g_arena_cur = nullptr;
+char* g_arena_hi = nullptr;
+bool g_no_reuse = false;
+
+void* ArenaAlloc(std::size_t size) {
+  if (g_arena_lo == nullptr) {
+    const std::size_t cap = std::size_t{1} << 33;
+    void* m = mmap(nullptr, cap, PROT_READ | PROT_WRITE, MAP_PRIVATE | MAP_ANONYMOUS | MAP_NORESERVE, -1, 0);
+    if (m == MAP_FAILED) {
+      std::abort();
+    }
+    g_arena_lo = g_arena_cur = static_cast<char*>(m);
+    g_arena_hi = g_arena_lo + cap;
+  }
+  size = (size + 15) & ~std::size_t{15};
+  if (size == 0) {
+    size = 16;
+  }
+  if (g_arena_cur + size > g_arena_hi) {
+    std::abort();
+  }
+  void* p = g_arena_cur;
+  g_arena_cur += size;
+  return p;
+}
+
 void* VrtAlloc(std::size_t size) {
-  void* p = std::malloc(size != 0 ? size : 1);
+  void* p = g_no_reuse ? ArenaAlloc(size) : std::malloc(size != 0 ? size : 1);
   if (p == nullptr) {
     std::abort();
   }
@@ -1344,10 +1376,21 @@ void VrtFree(void* p) noexcept {
       }
     }
   }
+  if (p >= static_cast<void*>(g_arena_lo) && p < static_cast<void*>(g_arena_hi)) {
+    return;  // never reused
+  }
   std::free(p);
 }
 
 }  // namespace
+
+namespace vrt {
+
+void SetNoReuseHeap(bool on) {
+  g_no_reuse = on;
+}
+
+}  // namespace vrt
 
 void* operator new(std::size_t size) {
   return VrtAlloc(size);
